@@ -18,6 +18,13 @@ FIXED = [
  ("C20", "audit writers return the error", "write-error / short-write on the serial audit log (and the concurrent writer's index file): Println/Printf dropped the write error, ProcessLogging logged nothing"),
  ("C02", "logging-phase rule must not replace", "a phase-5 rule with deny/drop/redirect overwrote the interruption recorded by the rule that blocked the request (deny in phase 1, deny in phase 5 on the same request: Interruption() reported the phase-5 rule)"),
  ("C02", "body-limit rejection honours DetectionOnly", "ctl:ruleEngine=DetectionOnly in phase 1 + Sec{Request,Response}BodyLimitAction Reject + body over the limit: the write call returned a real 413/500 interruption and IsInterrupted() was true in DetectionOnly"),
+ ("C06", "must not append into the shared rule", "data race (default build): doEvaluate appended per-transaction ctl:ruleRemoveTarget* exceptions into the backing array of the shared rule's Exceptions slice (rule with three configured !ARGS:x exclusions + ctl:ruleRemoveTargetById on two concurrent transactions)"),
+]
+OPEN = [
+ {"property": "C06", "status": "open",
+  "fingerprint": "C06/data-race/W:internal/corazawaf.computeRuleChainMinPhase",
+  "what": "build tag coraza.rule.multiphase_evaluation only: data race on Rule.chainMinPhase - computeRuleChainMinPhase (rule_multiphase.go:241-254) lazily writes the field of the shared rule during evaluation while other transactions read it (rulegroup.go:184, rule_multiphase.go:261); needs two transactions that evaluate a chained rule for the first time at the same moment; not repaired: the upstream TODO calls for computing it at parse time, a parser refactoring that is not a small patch",
+  "scenario": "any configuration with a chained rule, two concurrent transactions on a fresh WAF, thorough tier multiphase build"},
 ]
 try:
     old = json.load(open('/verif/known_findings.json'))
@@ -26,7 +33,7 @@ except Exception:
 kf = {
  "comment": "Genuine defects of corazawaf/coraza found by the checks. 'open' findings are matched by exact fingerprint and reported as KNOWN-FINDING (exit 0); 'fixed' entries suppress nothing. Never written at run time.",
  "fixed": [f"fixed: property={p} {h(s)} {w}" for p, s, w in FIXED],
- "findings": old.get("findings", []),
+ "findings": OPEN,
 }
 json.dump(kf, open('/verif/known_findings.json', 'w'), indent=1)
 print(len(kf["fixed"]), "fixed,", len(kf["findings"]), "open")
